@@ -117,3 +117,17 @@ prop("C17", "exploration", (240, 5000),
      text="Seeded exploration of save/restore: each party's durable state goes through the Write seam, the process state is dropped, a fresh value is restored from bytes and must be "
           "equal, re-encode identically and be interchangeable with the original for witness generation, proving and verifying; truncated inputs and failing writers are injected.",
      note="Equality of generators/gates in the library is by id only, so interchangeability (not Eq) is the deciding oracle. The tail of the compressed-proof encoding (unprefixed public inputs) is exempt from the truncation oracle by format design.")
+
+prop("C18", "fault_enumeration", (48, 1500),
+     rule="one run = one accepted honest proof (plain and compressed form) on a hostile channel; a case = one malformed input handed to an entry point. Byte level into "
+          "ProofWithPublicInputs::from_bytes / CompressedProofWithPublicInputs::from_bytes (then verify / verify_compressed if it decodes): truncations (boundaries + 40 random; "
+          "every prefix for ~10% of thorough runs), bit flips, 8-byte word edits to {0,1,2,2^16,2^32,2^48,2^63,u64::MAX,p,...} at the tail / random aligned offsets (every aligned offset "
+          "when dense), random byte strings, splices of two valid encodings. Struct level into verify / verify_compressed / decompress: every list fault (drop first/last, empty, duplicate, swap; "
+          "also nested: query rounds without steps, Merkle proofs of wrong length, caps of non-power-of-two length), element faults, and for compressed proofs map faults "
+          "(missing / surplus / renamed keys) and out-of-range query positions. Oracle: the call returns; no panic, no abort, no single allocation request above 1 GiB; success only for an honest proof. "
+          "distinct = (scenario, entry point, fault); non-trivial = the input differs from the honest encoding/value",
+     technique="deterministic simulation: hostile-channel fault enumeration (byte and struct level) against decoders and verifiers, with panic capture, a counting allocator and address-space cap",
+     text="Fault enumeration over malformed inputs: every fault class of the catalogue at stratified (thorough: dense) positions into each decoding / verification entry point, "
+          "observing panics (catch_unwind), aborts (worker death attributed through a progress file), oversized allocation requests (counting global allocator) and false acceptance.",
+     note="Known findings (compressed verification path panics) are listed in known_findings.jsonl by panic site; the plain-path cap-length panic is repaired by a fix: commit. STARK entry points are added with the STARK family.",
+     abort_is_violation=True)
